@@ -65,6 +65,33 @@ def wf_recover(max_recoveries: int = 2) -> type:
     ])
 
 
+def wf_order(k: int) -> type:
+    """k items for a single-worker step; the result is the order in which they were COMPLETED (written to the store
+    on completion, so an interrupted invocation leaves no trace)"""
+    async def start(self, ctx, ev, inv):  # noqa: ANN001
+        for i in range(k):
+            ctx.send_event(Work(uid=i))
+        return None
+
+    async def work(self, ctx, ev, inv):  # noqa: ANN001
+        await gate(f"w{ev.uid}")
+        order = list(await ctx.store.get("order", default=[]))
+        await ctx.store.set("order", order + [ev.uid])
+        return Done(uid=ev.uid)
+
+    async def fin(self, ctx, ev, inv):  # noqa: ANN001
+        r = ctx.collect_events(ev, [Done] * k)
+        if r is None:
+            return None
+        return StopEvent(result=list(await ctx.store.get("order", default=[])))
+
+    return make_workflow("Order", [
+        make_step("start", [StartEvent], [Work, None], start),
+        make_step("work", [Work], [Done], work, num_workers=1),
+        make_step("fin", [Done], [StopEvent, None], fin, num_workers=1),
+    ])
+
+
 # ------------------------------------------------------------------------------------ oracle
 def _store_dump(hd: Any) -> Any:
     try:
@@ -104,6 +131,8 @@ def make_oracle(reference: dict[str, Any]) -> Oracle:
         got = {"outcome": out[0], "value": repr(out[1].result if isinstance(out[1], StopEvent) else out[1])}
         resumed = bool(state.get("resumed"))
         w = {"program": h.spec.params.get("family", h.spec.name)}
+        if h.spec.resume_via != "abort":
+            w["paused_by"] = h.spec.resume_via
         if not resumed:
             return
         infl = getattr(h, "c12_inflight", {})
@@ -212,7 +241,19 @@ def specs(tier: str) -> list[Spec]:
     ]
     # two pauses in one execution (the second snapshot is taken from an already resumed run); more of these in the thorough tier
     sp.append(Spec("fan(2,2)/2x", {"family": "fan", "resumes": 2}, lambda: wf_fan(2, 2), resume=True, resume_count=2, max_dev=(4 if q else None)))
+    # order-sensitive single-worker queue
+    sp.append(Spec("order(3)", {"family": "order"}, lambda: wf_order(3), resume=True))
+    # the run is paused with handler.cancel_run() and the context of the CANCELLED run is serialized
+    for name, fam, mk, kw in (("order(3)", "order", lambda: wf_order(3), {}), ("fan(2,1)", "fan", lambda: wf_fan(2, 1), {}),
+                              ("fan(3,2)", "fan", lambda: wf_fan(3, 2), {"max_dev": 3 if q else None}),
+                              ("retry_zero", "retry_zero", lambda: wf_retry_chain(0), {}),
+                              ("retry_delay", "retry_delay", lambda: wf_retry_chain(2.0), {}),
+                              ("recover(2)", "recover", lambda: wf_recover(2), {}),
+                              ("wait(w=1,n=1)", "wait", lambda: wf_wait(1, n=1), {"scripts": resp_scripts(1), "max_dev": d + 1})):
+        sp.append(Spec(name + "/after_cancel", {"family": fam, "paused_by": "cancel_run"}, mk, resume=True, resume_via="cancel", **kw))
     if not q:
+        sp.append(Spec("order(3)/after_cancel/2x", {"family": "order", "paused_by": "cancel_run", "resumes": 2}, lambda: wf_order(3),
+                       resume=True, resume_via="cancel", resume_count=2))
         sp += [Spec("fan(4,2)", {"family": "fan"}, lambda: wf_fan(4, 2), resume=True, max_dev=4),
                Spec("recover(3)", {"family": "recover"}, lambda: wf_recover(3), resume=True)]
         # two pauses in one execution (the second snapshot is taken from an already resumed run)
@@ -246,8 +287,9 @@ def programs(tier: str) -> list[Program]:
 
 
 RULE = ("deterministic workflows (chain with store writes, fan-out/fan-in, retry with zero/positive delay incl. "
-        "exhaustion, catch_error recovery budgets, waits answered externally) x every schedule x one "
-        "ctx.to_dict()->JSON->Context.from_dict resume at every quiescent point; result, state store, retry numbers "
+        "exhaustion, catch_error recovery budgets, waits answered externally, an order-sensitive single-worker queue) x every schedule x one "
+        "ctx.to_dict()->JSON->Context.from_dict resume at every quiescent point (the context of the running run, then a hard stop; or "
+        "handler.cancel_run() first and the context of the cancelled run); result, state store, retry numbers "
         "of re-executed invocations, total executions and round-trip stability are compared with the uninterrupted "
         "runs (all of which are first shown to agree); non-trivial = the snapshot is taken after at least one "
         "other action, i.e. at least one deviation")
